@@ -201,6 +201,16 @@ theorem run_mono : ∀ (n : Nat) (t : Task) (s r : St), run n t s = some r → r
           cases hr : foldStmts (fun st => run n (.stmt st)) p (subshellOf s []) with
           | none => rw [hr] at h; cases h
           | some s1 => rw [hr] at h; rw [foldStmts_mono hm p _ s1 hr]; exact h
+      | echoSub w1 p w2 =>
+        rw [run] at h ⊢
+        split
+        · rename_i hs; rw [if_pos hs] at h; exact h
+        · rename_i hs
+          rw [if_neg hs] at h
+          try simp only at h ⊢
+          cases hr : foldStmts (fun st => run n (.stmt st)) p (subshellOf s []) with
+          | none => rw [hr] at h; cases h
+          | some s1 => rw [hr] at h; rw [foldStmts_mono hm p _ s1 hr]; exact h
       | call f =>
         rw [run] at h ⊢
         split
